@@ -39,6 +39,11 @@ Next == /\ ~done
                   /\ Emit([op |-> "iv.approx", mode |-> "rel",
                            a |-> Iv(ka, LoV(0), HiV(0)), b |-> Iv(kb, LoV(d1), HiV(d2)),
                            eps |-> 0, max_rel |-> [n |-> n, p |-> -11]])
+             \* ULP comparison with a non-zero epsilon (the absolute allowance applies whatever max_ulps is, 0 included)
+             /\ \A n \in {1, 4, 7} : \A u \in {0, 1} :
+                  Emit([op |-> "iv.approx", mode |-> "ulps",
+                        a |-> Iv(ka, LoV(0), HiV(0)), b |-> Iv(kb, LoV(d1), HiV(d2)),
+                        eps |-> [n |-> n, p |-> -11], max_ulps |-> u])
              /\ \A u \in 0..3 :
                   Emit([op |-> "iv.approx", mode |-> "ulps",
                         a |-> Iv(ka, LoU(0), HiU(0)), b |-> Iv(kb, LoU(d1), HiU(d2)),
